@@ -289,3 +289,53 @@ def function_tables():
             elif got[k] not in exp[k]:
                 bad.append('%s[%r] = %s, expected %s' % (tname, k, got[k], ' or '.join(exp[k])))
     return (not bad, '; '.join(bad[:10]) if bad else 'all %d entries of %d tables bind the documented function' % (sum(len(v) for v in found.values()), len(found)))
+
+
+@static("grammar: the precedence levels are chained atom <- power <- negation <- parallel <- product <- sum, '^' takes an optional sign on the exponent, and each level is tagged with the fold of that level", props=["C03"],
+        note="scan of MathParser.get_grammar and MathExpression's handler table: a level that is built from the wrong lower level, a missing Optional(minus) in power, or a handler bound to another fold "
+             "leaves this obligation undecided (the bounded operator-sequence sweep decides)")
+def grammar_chain():
+    fs = SRC.find_function('mitxgraders/helpers/calc/expressions.py::MathParser.get_grammar')
+    assigns = {}
+    tags = {}
+    for n in ast.walk(fs.node):
+        if isinstance(n, ast.Assign) and len(n.targets) == 1 and isinstance(n.targets[0], ast.Name):
+            assigns[n.targets[0].id] = n.value
+        if isinstance(n, ast.Call) and ast.unparse(n.func).endswith('.addParseAction') and n.args and isinstance(n.args[0], ast.Call) \
+                and ast.unparse(n.args[0].func) == 'self.group_if_multiple' and n.args[0].args:
+            tags[ast.unparse(n.func).split('.')[0]] = ast.literal_eval(n.args[0].args[0])
+    bad = []
+
+    def names(e):
+        return {x.id for x in ast.walk(e) if isinstance(x, ast.Name)}
+    chain = [('power', 'atom', 'power'), ('negation', 'power', 'negation'), ('parallel', 'negation', 'parallel'), ('product', 'parallel', 'product'), ('sumdiff', 'product', 'sum')]
+    levels = {'atom', 'power', 'negation', 'parallel', 'product', 'sumdiff'}
+    for var, lower, tag in chain:
+        if var not in assigns:
+            bad.append('%s not defined' % var)
+            continue
+        used = names(assigns[var]) & levels
+        if used != {lower}:
+            bad.append('%s is built from %s, expected %s only' % (var, sorted(used), lower))
+        if tags.get(var) != tag:
+            bad.append('%s is tagged %r, expected %r' % (var, tags.get(var), tag))
+    if 'power' in assigns and "Optional(minus)" not in ast.unparse(assigns['power']):
+        bad.append("power: no optional sign on the exponent")
+    if 'negation' in assigns and not ast.unparse(assigns['negation']).startswith("Optional(minus)"):
+        bad.append("negation does not start with an optional minus")
+    closes = [n for n in ast.walk(fs.node) if isinstance(n, ast.BinOp) and isinstance(n.op, ast.LShift) and ast.unparse(n.left) == 'expression']
+    if not closes or ast.unparse(closes[0].right) != 'sumdiff':
+        bad.append('the recursion is not closed with expression << sumdiff')
+    # handler table
+    tree = _module('mitxgraders/helpers/calc/expressions.py')
+    want = {'power': 'self.eval_power', 'negation': 'self.eval_negation', 'parallel': 'self.eval_parallel', 'product': 'self.eval_product', 'sum': 'self.eval_sum'}
+    found = {}
+    for n in ast.walk(tree):
+        if isinstance(n, ast.Dict):
+            d = {ast.literal_eval(k): ast.unparse(v) for k, v in zip(n.keys, n.values) if isinstance(k, ast.Constant)}
+            if set(want) <= set(d):
+                found = d
+    for k, v in want.items():
+        if found.get(k) != v:
+            bad.append('handler of %r is %s, expected %s' % (k, found.get(k), v))
+    return (not bad, '; '.join(bad) if bad else 'five levels chained in the stated order, each tagged with and dispatched to its own fold')
